@@ -5,7 +5,7 @@
 typedef struct { long t1, t2, t3; int m; } xv_in;
 DECL_INPUT(xv_in);
 
-//@job name=x509_validity_check props=C07 enforce=x509_validity_check
+//@job name=x509_validity_check props=C07,C20 enforce=x509_validity_check
 void h_x509_validity_check(void)
 {
 	INPUT(xv_in, I); ASSUME(I.t1 >= -1 && I.t2 >= -1 && I.t3 >= 0 && I.m >= 0 && I.t1 <= (1L << 40) && I.t2 <= (1L << 40));
